@@ -1,4 +1,5 @@
 import Model.Cache.LFU
 import Model.Cache.LFUWire
 import Model.Pickle.VM
+import Model.Pickle.Encode
 import Model.Pickle.Wire
